@@ -1,1 +1,238 @@
-def main : IO Unit := IO.println "stub"
+/-
+  drv_runtime — runs the RuntimeSM / Threads models on operation sequences, one per stdin line.
+
+  mode `c14` (default): a line is a list of segments, each a block tree run by one thread
+      line  := seg*                          seg := "S" t block
+      block := "." | "^" | "W" x block block | "Y" block block | op block
+      op    := "c" x | "n" x hs | "d" x y hs | "h" x hs | "g" ty h | "r" ty | "i" p | "p"
+      hs    := n (ty h)^n
+    output: "S<t>" obs* ["!"]  per segment, then "F<t>=<name>" per thread (first-use order)
+      obs   := "s<h>" | "T" | "@<name>"      name := "-" | "v<min var bound to it>" | "a<k>"
+  mode `sched`: a line is an interleaving  (t op)*  with op as above plus "e" x (enter), "x" x (exit)
+    output: "<t>:<obs>" in schedule order ("K" = exit of a non-entered object), then "F<t>=<name>"
+  mode `reg`:   (t k v)*  -> final table "k=v" sorted by k
+  mode `cache`: n fp_1 … fp_n "|" thread ids   (val f = f) -> "<t>=<v>" for finished threads, "<t>=?" else
+-/
+import LabreaModel.RuntimeSM
+import LabreaModel.Threads
+
+open Labrea.RuntimeSM Labrea.Threads
+
+abbrev P := Except String
+
+def num (s : String) : P Nat :=
+  match s.toNat? with
+  | some n => pure n
+  | none => throw s!"not a number: {s}"
+
+def pTable : Nat → List String → P (Table × List String)
+  | 0, ts => pure ([], ts)
+  | n + 1, a :: b :: ts => do
+      let ty ← num a; let h ← num b
+      let (rest, ts') ← pTable n ts
+      pure ((ty, h) :: rest, ts')
+  | _, _ => throw "truncated table"
+
+def pHs : List String → P (Table × List String)
+  | n :: ts => do pTable (← num n) ts
+  | [] => throw "missing table"
+
+/-- parse a non-scoping op; returns none if the token is not an op -/
+def pOp : List String → P (Option (BOp × List String))
+  | "c" :: x :: ts => do pure (some (.current (← num x), ts))
+  | "n" :: x :: ts => do let (hs, ts') ← pHs ts; pure (some (.new (← num x) hs, ts'))
+  | "d" :: x :: y :: ts => do let (hs, ts') ← pHs ts; pure (some (.derive (← num x) (← num y) hs, ts'))
+  | "h" :: x :: ts => do let (hs, ts') ← pHs ts; pure (some (.handleCur (← num x) hs, ts'))
+  | "g" :: ty :: h :: ts => do pure (some (.registerDefault (← num ty) (← num h), ts))
+  | "r" :: ty :: ts => do pure (some (.run (← num ty), ts))
+  | "i" :: p :: ts => do pure (some (.inherit (← num p), ts))
+  | "p" :: ts => pure (some (.probe, ts))
+  | _ => pure none
+
+partial def pBlock : List String → P (Block × List String)
+  | "." :: ts => pure (.done, ts)
+  | "^" :: ts => pure (.raise, ts)
+  | "W" :: x :: ts => do
+      let (b, ts1) ← pBlock ts
+      let (k, ts2) ← pBlock ts1
+      pure (.with_ (← num x) b k, ts2)
+  | "Y" :: ts => do
+      let (b, ts1) ← pBlock ts
+      let (k, ts2) ← pBlock ts1
+      pure (.try_ b k, ts2)
+  | ts => do
+      match ← pOp ts with
+      | some (o, ts1) =>
+          let (k, ts2) ← pBlock ts1
+          pure (.op o k, ts2)
+      | none => throw s!"bad block at {ts.take 3}"
+
+partial def pSegs : List String → P (List (Thread × Block))
+  | [] => pure []
+  | "S" :: t :: ts => do
+      let (b, ts1) ← pBlock ts
+      let rest ← pSegs ts1
+      pure ((← num t, b) :: rest)
+  | ts => throw s!"bad segment at {ts.take 3}"
+
+def s0 : State := ⟨[], fun _ => ⟨[], fun _ => []⟩, fun _ => 0, fun _ => none⟩
+def env0 : Env := fun _ => (4000000, 0)
+
+/-- output items before naming -/
+inductive Item
+  | tok (s : String)
+  | ident (pre : String) (o : Option Id)
+
+structure Namer where
+  bound : List (Id × Var)
+  anon : List Id
+
+def Namer.varOf (n : Namer) (r : Id) : Option Var :=
+  n.bound.foldl (fun acc (p : Id × Var) =>
+    if p.1 == r then (match acc with | some v => some (min v p.2) | none => some p.2) else acc) none
+
+def render (n : Namer) : List Item → List String → List String
+  | [], acc => acc.reverse
+  | .tok s :: rest, acc => render n rest (s :: acc)
+  | .ident pre none :: rest, acc => render n rest ((pre ++ "-") :: acc)
+  | .ident pre (some r) :: rest, acc =>
+      match n.varOf r with
+      | some v => render n rest ((pre ++ "v" ++ toString v) :: acc)
+      | none =>
+        match n.anon.findIdx? (· == r) with
+        | some k => render n rest ((pre ++ "a" ++ toString k) :: acc)
+        | none =>
+          let k := n.anon.length
+          render { n with anon := n.anon ++ [r] } rest ((pre ++ "a" ++ toString k) :: acc)
+
+def obsItems (pre : String) : List Obs → List Item
+  | [] => []
+  | .bound _ _ :: rest => obsItems pre rest
+  | .served h :: rest => .tok (pre ++ "s" ++ toString h) :: obsItems pre rest
+  | .typeError :: rest => .tok (pre ++ "T") :: obsItems pre rest
+  | .cur o :: rest => .ident (pre ++ "@") o :: obsItems pre rest
+
+def boundsOf : List Obs → List (Id × Var)
+  | [] => []
+  | .bound x r :: rest => (r, x) :: boundsOf rest
+  | _ :: rest => boundsOf rest
+
+def runC14 (line : String) : String :=
+  let toks := (line.splitOn " ").filter (· ≠ "")
+  match pSegs toks with
+  | .error e => "PARSE-ERROR " ++ e
+  | .ok segs =>
+    let init : Env × State × List Item × List (Id × Var) × List Thread := (env0, s0, [], [], [])
+    let (_, s, items, bounds, threads) := segs.foldl
+      (fun (acc : Env × State × List Item × List (Id × Var) × List Thread) (seg : Thread × Block) =>
+        let (env, s, items, bounds, threads) := acc
+        let out := exec seg.1 seg.2 env s
+        let its := [Item.tok ("S" ++ toString seg.1)] ++ obsItems "" out.obs ++
+                   (if out.raised then [Item.tok "!"] else [])
+        (out.env, out.st, items ++ its, bounds ++ boundsOf out.obs,
+         if threads.contains seg.1 then threads else threads ++ [seg.1])) init
+    let finals := threads.map (fun t => Item.ident ("F" ++ toString t ++ "=") (s.cur t))
+    " ".intercalate (render ⟨bounds, []⟩ (items ++ finals) [])
+
+/-! ### sched mode -/
+
+inductive SOp
+  | b (o : BOp)
+  | enter (x : Var)
+  | exit (x : Var)
+
+partial def pSched : List String → P (List (Thread × SOp))
+  | [] => pure []
+  | t :: "e" :: x :: ts => do pure ((← num t, .enter (← num x)) :: (← pSched ts))
+  | t :: "x" :: x :: ts => do pure ((← num t, .exit (← num x)) :: (← pSched ts))
+  | t :: ts => do
+      match ← pOp ts with
+      | some (o, ts1) => pure ((← num t, .b o) :: (← pSched ts1))
+      | none => throw s!"bad step at {ts.take 3}"
+
+def resItems (pre : String) (o : BOp) (r : Res) : List Item × List (Id × Var) :=
+  match o.target, r with
+  | some x, .id i => ([], [(i, x)])
+  | _, .served h => ([.tok (pre ++ "s" ++ toString h)], [])
+  | _, .typeError => ([.tok (pre ++ "T")], [])
+  | _, _ => ([], [])
+
+def runSchedLine (line : String) : String :=
+  let toks := (line.splitOn " ").filter (· ≠ "")
+  match pSched toks with
+  | .error e => "PARSE-ERROR " ++ e
+  | .ok steps =>
+    let init : Env × State × List Item × List (Id × Var) × List Thread := (env0, s0, [], [], [])
+    let (_, s, items, bounds, threads) := steps.foldl
+      (fun (acc : Env × State × List Item × List (Id × Var) × List Thread) (st : Thread × SOp) =>
+        let (env, s, items, bounds, threads) := acc
+        let t := st.1
+        let pre := toString t ++ ":"
+        let threads := if threads.contains t then threads else threads ++ [t]
+        match st.2 with
+        | .enter x => (env, (step s t (.enter (env x))).1, items, bounds, threads)
+        | .exit x =>
+            let r := step s t (.exit (env x))
+            (env, r.1, items ++ (if r.2 == .notEntered then [Item.tok (pre ++ "K")] else []), bounds, threads)
+        | .b o =>
+            match o.toOp env with
+            | none => (env, s, items ++ [Item.ident (pre ++ "@") (s.cur t)], bounds, threads)
+            | some a =>
+                let r := step s t a
+                let (its, bs) := resItems pre o r.2
+                (bindEnv env o r.2, r.1, items ++ its, bounds ++ bs, threads)) init
+    let finals := threads.map (fun t => Item.ident ("F" ++ toString t ++ "=") (s.cur t))
+    " ".intercalate (render ⟨bounds, []⟩ (items ++ finals) [])
+
+/-! ### reg / cache modes -/
+
+partial def pTriples : List String → P (List (Thread × Key × Val))
+  | [] => pure []
+  | t :: k :: v :: ts => do pure ((← num t, ← num k, ← num v) :: (← pTriples ts))
+  | _ => throw "truncated triple"
+
+def insertSorted (k : Nat) : List Nat → List Nat
+  | [] => [k]
+  | x :: xs => if k < x then k :: x :: xs else if k == x then x :: xs else x :: insertSorted k xs
+
+def runRegLine (line : String) : String :=
+  let toks := (line.splitOn " ").filter (· ≠ "")
+  match pTriples toks with
+  | .error e => "PARSE-ERROR " ++ e
+  | .ok sched =>
+    let tb := runReg sched []
+    let keys := tb.foldl (fun acc (p : Key × Val) => insertSorted p.1 acc) []
+    " ".intercalate (keys.map (fun k => toString k ++ "=" ++ (match tb.lookup k with | some v => toString v | none => "?")))
+
+def runCacheLine (line : String) : String :=
+  let toks := (line.splitOn " ").filter (· ≠ "")
+  match toks with
+  | n :: rest =>
+    match n.toNat? with
+    | none => "PARSE-ERROR n"
+    | some n =>
+      let fps := (rest.take n).map (fun s => s.toNat?.getD 0)
+      let sched := ((rest.drop n).filter (· ≠ "|")).map (fun s => s.toNat?.getD 0)
+      let fp : Thread → Fp := fun t => fps.getD t 0
+      let s := runCache (fun f => f) fp sched ⟨fun _ => none, fun _ => .start⟩
+      " ".intercalate ((List.range n).map (fun t =>
+        toString t ++ "=" ++ (match s.pc t with | .done v => toString v | _ => "?")))
+  | [] => ""
+
+partial def loop (f : String → String) (h : IO.FS.Stream) (out : IO.FS.Stream) : IO Unit := do
+  let line ← h.getLine
+  if line.isEmpty then pure ()
+  else
+    out.putStrLn (f (line.trimRight))
+    loop f h out
+
+def main (args : List String) : IO Unit := do
+  let stdin ← IO.getStdin
+  let stdout ← IO.getStdout
+  let f := match args with
+    | "sched" :: _ => runSchedLine
+    | "reg" :: _ => runRegLine
+    | "cache" :: _ => runCacheLine
+    | _ => runC14
+  loop f stdin stdout
+  stdout.flush
